@@ -292,8 +292,46 @@ def law_pairs(key):
     return res, len(cits)
 
 
+def dated_ambiguous():
+    """(written string, year only edition A covers, year only edition B covers) for every spelling that reporters-db maps
+    to several differently named editions whose dates allow such a pair of years."""
+    from mc import resolver as RS
+
+    RS.db_norm_by_year("U.S.", 1900)  # builds the table
+    out = []
+    for w, cands in sorted(RS._DB_DATED.items()):
+        if len(cands) < 2:
+            continue
+        only = {}
+        for y in range(1700, 2021):
+            ok = [n for n, (s, e) in cands.items() if (s is None or s.year <= y) and (e is None or e.year >= y)]
+            if len(ok) == 1:
+                only.setdefault(ok[0], y)
+        if len(only) >= 2:
+            (a, ya), (b, yb) = sorted(only.items())[:2]
+            out.append((w, ya, yb))
+    return out
+
+
+def check_dated(w, ya, yb):
+    """Surrounding text does not matter: the same dated citation, alone and after another case's citation with another
+    year in the same sentence, denotes the same document."""
+    res = []
+    for y_other, y_own in ((ya, yb), (yb, ya)):
+        cite = f"2 {w} 5"
+        alone = one_case(f"See {cite} ({y_own}).", cite)
+        ctx = one_case(f"Smith v. Jones, 1 U.S. 1 ({y_other}), was followed in {cite} ({y_own}).", cite)
+        if alone is None or ctx is None:
+            continue
+        if eq3(alone, ctx) != (True, True, True):
+            res.append(("context-changes-edition", f"{cite!r} ({y_own}) alone normalises to {alone.corrected_reporter()!r}; after a citation dated {y_other} in the same sentence to {ctx.corrected_reporter()!r}: ==,hash,resource = {eq3(alone, ctx)}"))
+    return res
+
+
 def replay(case):
     setup("replay", 0)
+    if case["kind"] == "dated":
+        return [{"msg": f"{lab}: {det}", "label": lab} for lab, det in check_dated(case["w"], case["ya"], case["yb"])]
     k = case["kind"]
     if k == "laws":
         res, _ = law_pairs(case["key"])
@@ -320,6 +358,8 @@ def shards(tier, seed):
         out.append({"part": "context", "edition": e, "bound": 2 if tier == "quick" else 3})
     for r in range(8):
         out.append({"part": "laws", "r": r, "n": 8})
+    for r in range(4):
+        out.append({"part": "dated", "r": r, "n": 4})
     return out
 
 
@@ -355,6 +395,11 @@ def run_shard(sh):
                         res, status = check_variation(ed_name, var, vol, page)
                         case = {"kind": "variation", "edition": ed_name, "variation": var, "vol": vol, "page": page}
                         record(case, h64([ed_name, var, vol, page]), res, var is not None, status)
+        return st
+    if sh["part"] == "dated":
+        for w, ya, yb in dated_ambiguous()[sh["r"] :: sh["n"]]:
+            res = check_dated(w, ya, yb)
+            record({"kind": "dated", "w": w, "ya": ya, "yb": yb}, h64(["dated", w]), res, True)
         return st
     if sh["part"] == "laws":
         for key in sorted(_ED["law_examples"])[sh["r"] :: sh["n"]]:
